@@ -63,22 +63,49 @@ Theorem C24_qkinds_covered : qkinds_covered = true.
 Proof. exact gen_qkinds_covered. Qed.
 Print Assumptions C24_qkinds_covered.
 
-(** The gRPC handlers answer every wire-decoded request - with any subset of fields set - without
-    panicking, for every searcher that does not panic when it is given non-nil options. *)
-Theorem C24_handlers_total : forall rn search list,
+(** The gRPC handlers - request decoding, the call of the searcher AND the encoding of its result
+    (res.ToProto()) - answer every wire-decoded request, with any subset of fields set, without
+    panicking, for every searcher that does not panic when it is given non-nil options and whose
+    results are values of the result type's round-trip domain. *)
+Theorem C24_handlers_total : forall rn search stream list,
   (forall q o w, o <> VNil -> search q o <> Panic w) ->
+  (forall q o w, o <> VNil -> stream q o <> Panic w) ->
   (forall q o w, list q o <> Panic w) ->
+  (forall q o r, search q o = Ok r -> res_dom (gen_env rn) "zoekt.SearchResult" r = true) ->
+  (forall q o evs, stream q o = Ok (VL evs) -> forallb (res_dom (gen_env rn) "zoekt.SearchResult") evs = true) ->
+  (forall q o r, list q o = Ok r -> res_dom (gen_env rn) "zoekt.RepoList" r = true) ->
   forall h req, wire_wf req = true ->
-  forall w, handle (gen_env rn) search list handler_defaults_nil_opts h req <> Panic w.
+  forall w, handle (gen_env rn) search stream list handler_defaults_nil_opts h req <> Panic w.
 Proof. exact gen_handlers_total. Qed.
 Print Assumptions C24_handlers_total.
+
+(** End to end: the message Search / List answers with decodes, on the client, to exactly what the
+    searcher returned (the named exclusions RepoURLs / LineFragments reset). *)
+Theorem C24_search_response_lossless : forall rn search,
+  (forall q o w, o <> VNil -> search q o <> Panic w) ->
+  (forall q o r, search q o = Ok r -> res_dom (gen_env rn) "zoekt.SearchResult" r = true) ->
+  forall req resp, wire_wf req = true ->
+  handle_search (gen_env rn) search handler_defaults_nil_opts req = Ok resp ->
+  exists q o r, search q o = Ok r /\
+    dec_result (gen_env rn) "zoekt.SearchResult" resp = Ok (res_back (gen_env rn) "zoekt.SearchResult" r).
+Proof. exact gen_search_response_lossless. Qed.
+Print Assumptions C24_search_response_lossless.
+
+Theorem C24_list_response_lossless : forall rn list,
+  (forall q o r, list q o = Ok r -> res_dom (gen_env rn) "zoekt.RepoList" r = true) ->
+  forall req resp, wire_wf req = true ->
+  handle_list (gen_env rn) list req = Ok resp ->
+  exists q o r, list q o = Ok r /\
+    dec_result (gen_env rn) "zoekt.RepoList" resp = Ok (res_back (gen_env rn) "zoekt.RepoList" r).
+Proof. exact gen_list_response_lossless. Qed.
+Print Assumptions C24_list_response_lossless.
 
 (** the statement C24_handlers_total was false before the repairs 5dbbb25 and fe94a82 (kept as a record) *)
 Theorem C24_handlers_total_refuted_before_repair :
   (exists req, wire_wf req = true /\
-     handle (pre_repair_env (fun s => Some s)) ok_streamer ok_streamer false 0 req = Panic P_NIL) /\
+     handle (pre_repair_env (fun s => Some s)) ok_streamer ok_stream ok_lister false 0 req = Panic P_NIL) /\
   (exists req, wire_wf req = true /\
-     handle (gen_env (fun s => Some s)) ok_streamer ok_streamer false 0 req = Panic P_NIL).
+     handle (gen_env (fun s => Some s)) ok_streamer ok_stream ok_lister false 0 req = Panic P_NIL).
 Proof.
   split.
   - exists (VR [("Query"%string, VNil); ("Opts"%string, VNil)]). split; [reflexivity|exact pre_repair_unset_query_panics].
@@ -136,18 +163,49 @@ Proof. split; [vm_compute; reflexivity|vm_compute; discriminate]. Qed.
 
 (** requests with unset query / childless Not / unset options are wire-well-formed and are answered *)
 Example C24_ex_unset_query_is_an_error :
-  handle (gen_env ex_rn) ok_streamer ok_streamer handler_defaults_nil_opts 0
+  handle (gen_env ex_rn) ok_streamer ok_stream ok_lister handler_defaults_nil_opts 0
          (VR [("Query", VNil); ("Opts", VNil)])%string = Err ERR_INVALID_ARGUMENT.
 Proof. vm_compute. reflexivity. Qed.
 Example C24_ex_childless_not_is_an_error :
-  handle (gen_env ex_rn) ok_streamer ok_streamer handler_defaults_nil_opts 1
+  handle (gen_env ex_rn) ok_streamer ok_stream ok_lister handler_defaults_nil_opts 1
          (VR [("Request", VR [("Query", VQ "Q_Not" (VR [("Child", VNil)])); ("Opts", VNil)])])%string
   = Err ERR_INVALID_ARGUMENT.
 Proof. vm_compute. reflexivity. Qed.
 Example C24_ex_nil_opts_is_answered :
-  handle (gen_env ex_rn) ok_streamer ok_streamer handler_defaults_nil_opts 0
+  handle (gen_env ex_rn) ok_streamer ok_stream ok_lister handler_defaults_nil_opts 0
          (VR [("Query", VQ "Q_Const" (VB true)); ("Opts", VNil)])%string = Ok VNil.
 Proof. vm_compute. reflexivity. Qed.
+
+(** the response side is not vacuous: a searcher returning a result with one file match and set
+    RepoURLs satisfies the hypotheses, the handler answers with the encoded message, and that
+    message decodes to the result with RepoURLs reset; a List handler whose searcher returned nil
+    (outside the domain: RepoList.ToProto has no nil guard) would crash *)
+Definition ex_file : val :=
+  match lookup "zoekt.FileMatch" pf_tables with
+  | Some t => VR (map (fun r => if String.eqb (r_dst r) "FileName" then (r_dst r, VS [102;46;103;111]%N) else (r_dst r, r_zero r)) (t_from t))
+  | None => VNil
+  end.
+Definition ex_result : val :=
+  match lookup "zoekt.SearchResult" pf_tables with
+  | Some t => VR (map (fun r => if String.eqb (r_dst r) "Files" then (r_dst r, VL [ex_file])
+                                else if String.eqb (r_dst r) "RepoURLs" then (r_dst r, VM [(VS [114%N], VS [117%N])])
+                                else (r_dst r, r_zero r)) (t_from t))
+  | None => VNil
+  end.
+Example C24_ex_result_in_domain : res_dom (gen_env ex_rn) "zoekt.SearchResult" ex_result = true.
+Proof. vm_compute. reflexivity. Qed.
+Example C24_ex_response_decodes_back :
+  exists resp, handle (gen_env ex_rn) (fun _ _ => Ok ex_result) ok_stream ok_lister handler_defaults_nil_opts 0
+                      (VR [("Query", VQ "Q_Const" (VB true)); ("Opts", VNil)])%string = Ok resp /\
+               resp <> VNil /\
+               dec_result (gen_env ex_rn) "zoekt.SearchResult" resp = Ok (res_back (gen_env ex_rn) "zoekt.SearchResult" ex_result) /\
+               res_back (gen_env ex_rn) "zoekt.SearchResult" ex_result <> ex_result.
+Proof. eexists. split; [vm_compute; reflexivity|]. split; [discriminate|]. split; [vm_compute; reflexivity|vm_compute; discriminate]. Qed.
+Example C24_ex_nil_repolist_crashes :
+  res_dom (gen_env ex_rn) "zoekt.RepoList" VNil = false /\
+  handle (gen_env ex_rn) ok_streamer ok_stream (fun _ _ => Ok VNil) handler_defaults_nil_opts 2
+         (VR [("Query", VQ "Q_Const" (VB true)); ("Opts", VNil)])%string = Panic P_NIL.
+Proof. split; vm_compute; reflexivity. Qed.
 
 (** unset sub-messages: IndexMetadataFromProto(nil).IndexTime is the Unix epoch (AsTime of a nil
     timestamp), not the zero time.Time; a ChunkMatch without ContentStart gets the zero Location; a
